@@ -5,16 +5,22 @@ Inductive c1out := C1O1 (p : pout) | C1O2 (p : pout2).
 
 (* pin level: a solid fill is seen as a stream of equal pixels, so the final picture is compared instead of
    the write history (the L1 cases compare the ordered history) *)
+(* what C01 is about: results, framing, no anomaly, the ordered write history, confinement, reported state, one
+   window per fill. (The colour-order / refresh-order bits of MADCTL belong to C10 / C11 / C14; the three
+   orientation bits show in the write history.) *)
+Definition good_l1 (v : verdict) : bool :=
+  v_results_ok v && v_framing v && v_no_anomaly v && v_writes v && v_confined v && v_obs v
+  && v_one_window v && v_nondraw_clean v.
 Definition good_l2 (v : verdict) : bool :=
-  v_results_ok v && v_framing v && v_no_anomaly v && v_picture v && v_confined v && v_obs v && v_madctl v
+  v_results_ok v && v_framing v && v_no_anomaly v && v_picture v && v_confined v && v_obs v
   && v_one_window v && v_nondraw_clean v.
 
 Definition check (x : c1case * c1out) : Z :=
   match x with
-  | (C1L1 pc, C1O1 p) => code (corr_exact pc p) (all_good (judge pc p))
+  | (C1L1 pc, C1O1 p) => code (corr_ops pc p) (good_l1 (judge pc p))
   | (C1L2 pc, C1O2 p) =>
       match model_of_id (pc_model pc) with
-      | Some m => code (match run_pcase2 pc with Some mo => pout2_eqb mo p | None => false end)
+      | Some m => code (match run_pcase2 pc with Some mo => pout2_ops_eqb mo p | None => false end)
                        (good_l2 (judge pc (decode_pout2 pc m p)) &&
                         good_l2 (judge pc (decode_pout2_from (lines_high (bus_width pc)) pc m p)))
       | None => 3
